@@ -171,7 +171,8 @@ pub fn add_implicit_intersection(node: &mut Node, add: bool) {
             let arg_count = args.len();
             let signature = get_function_args_signature(kind, arg_count);
             for index in 0..arg_count {
-                if matches!(signature[index], Signature::Scalar)
+                // a fixed-size signature can be shorter than a call with too many arguments
+                if matches!(signature.get(index), Some(Signature::Scalar))
                     && matches!(
                         run_static_analysis_on_node(&args[index]),
                         StaticResult::Range(_, _) | StaticResult::Unknown
